@@ -44,6 +44,9 @@ Items == <<
 
 ASSUME Len(Items) = 22
 
+\* one row per tallied reference group, below "References": the number of references in the group
+RefGroupItem == It("reference_groups", "refgroup", <<ORS, "References">>, "", 1000, "", FromInt(25000), 1, 32, "")
+
 CapOfItem(it) == IF it.cap = 64 THEN Cap64B ELSE Cap32B
 Saturated(it, v) == v = CapOfItem(it)
 
